@@ -53,7 +53,7 @@ def check_forest(impl):
         if v.sym_parent is not n:
           hits.append(('child-parent-link', 'child %r of %s in root #%d reports parent %s' % (
               k, n.sym_path, ri, 'None' if v.sym_parent is None else 'another node')))
-        if v.sym_path != n.sym_path + k:
+        if v.sym_path != D.pg().KeyPath(k, n.sym_path):      # (not `path + k`: that would parse a string key as a path)
           hits.append(('child-path', 'child stored under key %r of node at %r reports path %r' % (k, str(n.sym_path), str(v.sym_path))))
         else:
           try:
